@@ -46,6 +46,7 @@ def normalise(events):
     p = head["params"]
     out.append(dict(DEF, k="reset", cap=qcap_of(events), prog=parse_prog(p["prog"]), nreg=int(p.get("nreg", 1))))
     cur_op = {}
+    touched = {}
     pop_idx = 0
     # position of the last scan load of every low_water_mark of the collector
     lwe_at = set()
@@ -106,7 +107,11 @@ def normalise(events):
             continue
         u = t - 1
         if k in ("call", "ret"):
+            if k == "ret" and e["op"] in ("enter", "leave") and not touched.get(t):
+                # a lock / unlock that neither published nor reset the slot: nested
+                out.append(dict(DEF, t=u, k="enest" if e["op"] == "enter" else "lnest", x=e["x"]))
             cur_op[t] = (e["op"], e["x"]) if k == "call" else None
+            touched[t] = False
             if e["op"] in ("retire", "stop", "dtor"):
                 out.append(dict(DEF, t=u, k=k, op=e["op"], x=e["x"]))
             continue
@@ -114,6 +119,8 @@ def normalise(events):
         cop = cur_op.get(t)
         if cop is None:
             continue
+        if loc in ("version", "slot") and cop[0] in ("enter", "leave"):
+            touched[t] = True
         if k == "load" and loc == "version" and cop[0] == "enter":
             out.append(dict(DEF, t=u, k="eload", x=cop[1], n=e["v"]))
         elif k == "store" and loc == "slot" and cop[0] in ("enter", "leave"):
@@ -199,6 +206,20 @@ MULTI = [
     # two retirers and a separate region thread
     ("rt1.rt2.wt6.st.wt4.dt_wt1.rt5.rt6.sg6_en1.sg1.sl8.lv1.sg4", 2, 1, 0),
 ]
+# nested regions (depth 2): outer enter, retirements by the owner, inner enter / leave, the reclaimers must still wait
+NEST = [
+    make("wt1.rt1.rt2.st", ["en1.sg1.sl3.en1.lv1.sl5.lv1"], 2, 1, 0),
+    make("wt1.rt1.rt2.st", ["en1.sg1.sl3.en1.lv1.sl5.lv1"], 2, 1, 1),
+    make("rt1.wt1.rt2.rt3", ["en1.en1.sg1.sl3.lv1.sl3.lv1", "en2.lv2"], 4, 2, 0),
+]
+# the 16-bit slot versions of the queue wrap at round 32768: retire blocks on a full queue exactly there (a region held
+# open keeps the collector from draining: it holds one batch, the queue one capacity, the next retire must wait)
+WRAP = [
+    make("wt1.rt1.rt2.rt3.rt4.st", ["en1.sg1.sl20.lv1"], 1, 1, 0) + (32766,),
+    make("wt1.rt1.rt2.rt3.rt4.st", ["en1.sg1.sl20.lv1"], 1, 1, 0) + (32767,),
+    make("wt1.rt1.rt2.rt3.rt4.rt5.rt6.rt7", ["en1.sg1.sl20.lv1"], 2, 1, 0) + (32766 * 2,),
+    make("wt1.rt1.rt2.rt3.rt4.rt5.rt6.st", ["en1.sg1.sl20.lv1"], 2, 1, 1) + (32767 * 2,),
+]
 PB = [
     make("rt1.st", ["en1.lv1"], 1, 1, 0),
     make("rt1.rt2", ["en1.lv1"], 2, 1, 0),
@@ -207,7 +228,7 @@ PB = [
     MULTI[4],
 ]
 # explored much harder when the code no longer follows the L2 specification
-STRESS = [MULTI[0], MULTI[3], MULTI[4], MULTI[5]]
+STRESS = [MULTI[0], MULTI[3], MULTI[4], MULTI[5], NEST[0], WRAP[0]]
 
 
 def gen_program(rng):
@@ -223,7 +244,7 @@ def gen_program(rng):
         owner.append(tail)
     regions = []
     for r in range(1, nreg + 1):
-        body = "en%d.%s%slv%d" % (r, "sg1." if r == 1 else "", rng.choice(["", "", "sl3.", "sl12."]), r)
+        body = "en%d.%s%slv%d" % (r, "sg1." if r == 1 else "", rng.choice(["", "", "sl3.", "sl12.", "sl2.en%d.lv%d.sl2." % (r, r)]), r)
         regions.append(".".join([body] * rng.choice([1, 1, 2])))
     if nreg == 0:
         owner = [o for o in owner if o != "wt1"]
@@ -254,8 +275,10 @@ def gen_program(rng):
         j = r1.index("lv1")
         r1[j:j] = ["rt5", "sg6"] if cap > 1 else ["sg6"]
         prog = "_".join([".".join(own), ".".join(r1)] + threads[2:])
+    if rng.random() < 0.25:
+        return prog, cap, nreg, style, rng.choice([32766, 32767]) * cap
     return prog, cap, nreg, style
 
 
-def params_of(prog, cap, nreg, style):
-    return "prog=%s,cap=%d,nreg=%d,style=%d" % (prog, cap, nreg, style)
+def params_of(prog, cap, nreg, style, qbase=0):
+    return "prog=%s,cap=%d,nreg=%d,style=%d,qbase=%d" % (prog, cap, nreg, style, qbase)
